@@ -464,6 +464,36 @@ func runC05(w *World, r *Report) {
 		r.check(ok, "drain-delegates", "Melange.Drain", w.Pos(f.fn.Pos()), "argument roles preserved and result propagated", "roles differ")
 	}
 
+	// ---- the sink of a Drain is scratch space of that one computation
+	r.rule("drain-sink-is-private", "the sink handed to Drain / the receiver side of Transfer in ledger accounting is storage of that computation (a fresh value or a local), never package-level state: a shared sink accumulates across calls and makes in − out depend on history", 2)
+	for _, fn := range w.RepoFuncs("accountant") {
+		for _, c := range callsTo(fn, nDrain, nTransfer) {
+			_, a := callArgs(c)
+			sink := a[len(a)-1]
+			shared := ""
+			var chase func(v ssa.Value, d int)
+			chase = func(v ssa.Value, d int) {
+				if d > 6 || shared != "" {
+					return
+				}
+				switch x := v.(type) {
+				case *ssa.Global:
+					shared = x.Name()
+				case *ssa.UnOp:
+					chase(x.X, d+1)
+				case *ssa.FieldAddr:
+					chase(x.X, d+1)
+				case *ssa.Phi:
+					for _, e := range x.Edges {
+						chase(e, d+1)
+					}
+				}
+			}
+			chase(sink, 0)
+			r.check(shared == "", "drain-sink-is-private", strings.TrimPrefix(shortFn(fn), "(*accountant.")+"/"+shortCallee(c), lineOf(w, c), "the sink is not shared between computations", "the sink is the package-level variable "+shared)
+		}
+	}
+
 	// ---- 2. canonical amounts only
 	r.rule("canonicality-predicate", "a predicate exists whose result is decided by SupplementaryCurrency < 10^18", 1)
 	var preds []string
